@@ -64,6 +64,18 @@ def nontrivial(cfg, op, o):
     return best
 
 
+# the non-vacuity history of coq/Props/C08.v (c08_cfg / c08_ops), replayed on the real contracts in every run
+CORPUS = [dict(name="C08_nonvacuous",
+               cfg=dict(opts=[[360, 4000], [720, 6000], [1440, 8000]], unbond=10, burn=5000, minlock=4, cool=6, epoch0=5),
+               ops=[["Lock", 1, 1000, 360, 1], ["Lock", 1, 5000, 1440, 1], ["Lock", 2, 700, 720, 3], ["LockVirtual", 2, 900, 360],
+                    ["Reduce", 1, 1440, 1000, 360], ["UnlockEarly", 1, 360, 300], ["UnlockEarly", 3, 720, 50],
+                    ["Wrap", 1, 1440, 500], ["WTransfer", 1, 2, 1440, 200], ["LockFunds", 1, 3, [[1440, 100], [360, 50]]],
+                    ["Advance", 5], ["Withdraw", 3, 1], ["Unwrap", 2, 1440, 200], ["Extend", 3, 720, 100, 1440, 3],
+                    ["ExtendVia", 1, 360, 100, 720], ["Merge", 1, [[1440, 10], [720, 20]]], ["Advance", 360],
+                    ["Unlock", 2, [[360, 400]]], ["CancelUnbond", 1], ["Claim", 3], ["UnlockEarly", 1, 1440, 90],
+                    ["LockFunds", 2, 1, [[1440, 10]]]])]
+
+
 def _gen(args):
     seed, nops = args
     cfg, trace = se.gen_history(seed, nops)
@@ -84,6 +96,12 @@ def explore(tier, seed, model_ok=True, focus=False):
     nh, nops = budgets(tier)
     seeds = [seed * 100000 + i for i in range(nh)]
     hist = []
+    for c in CORPUS:
+        tr = se.replay_history(c["cfg"], c["ops"])
+        if not all(o["ok"] for _, o in tr):
+            raise RuntimeError(f"corpus history {c['name']} no longer succeeds on the real contracts: "
+                               f"{[(op, o['msg']) for op, o in tr if not o['ok']]}")
+        hist.append((c["name"], c["cfg"], tr))
     with concurrent.futures.ProcessPoolExecutor(max_workers=16) as pool:
         for sd, cfg, trace in pool.map(_gen, [(s, nops) for s in seeds], chunksize=4):
             hist.append((sd, cfg, trace))
